@@ -22,6 +22,12 @@ with and without timeout, in any order.  The only side condition is `round + |c|
 (no uint64 wrap-around in `SchedulerRank`); what happens beyond it is recorded at the end.
 
 The Go pool is tied to the model by the pooldrv correspondence.
+
+Not expressible here (the model stores commitments by value, Go stores `*ExecutorCommitment`):
+pointer aliasing between the pool and its callers. `finalize_sound`/`sc_has_commitment` speak about
+the commitment that was *admitted*; that the pool still holds exactly those bytes at finalization
+(no reused loop variable in `executorCommit`) is a model-free check of pooldrv on the real handlers,
+see the note at `OasisModel.Roothash.SC`.
 -/
 namespace OasisProofs.C11
 open OasisModel.Roothash OasisProofs.Roothash
